@@ -41,7 +41,8 @@ auto match_member_is(M m, const char* name, C&& c)
   return trompeloeil::make_matcher<trompeloeil::wildcard>(
       impl::member_is_matcher<M>{m},
       [name](std::ostream& os, const C& compare) {
-        os << ' ' << name << compare;
+        os << ' ' << name;
+        ::trompeloeil::print(os, compare);
       },
       std::forward<C>(c)
   );
